@@ -247,27 +247,44 @@ func c18Offset(c *core.Ctx, r *core.Reporter) {
 func widthLike(v ssa.Value, width map[ssa.Value]bool) bool { return width[v] }
 
 func c18NodePos(c *core.Ctx, r *core.Reporter) {
-	p, fd := c.FindDecl("gqlerrors", "newError")
-	if fd == nil {
-		r.Unknown("gqlerrors.newError", token.NoPos, "not found")
+	// The constructor of located errors: found by what it does (it turns positions into locations with
+	// location.GetLocation inside a loop), not by its name — newError today, but the body may be inlined into the exported
+	// constructors or split into helpers.
+	p := c.Pkg("gqlerrors")
+	gl := c.Func("language/location", "GetLocation")
+	if p == nil || gl == nil {
+		r.Unknown("gqlerrors.newError", token.NoPos, "package gqlerrors / location.GetLocation not found")
 		return
 	}
-	fn := c.Func("gqlerrors", "newError")
-	reads := core.FieldsRead(p.TypesInfo, c.RegionDecls(fn))["ast.Location"] // helpers extracted from newError included
-	r.Check(reads["Start"] && !reads["End"], "gqlerrors.newError/position-from-Loc.Start", fd.Pos(),
-		"error positions are the nodes' Loc.Start", "gqlerrors.newError does not take node positions from Loc.Start (or reads Loc.End): validation and field errors point at the wrong place")
-	// positions are converted with location.GetLocation on the error's own source
-	gl := c.Func("language/location", "GetLocation")
-	ok := false
-	if fn != nil && gl != nil {
-		for _, ci := range c.RegionCallsTo(fn, gl) {
+	var loopCall ssa.CallInstruction
+	for _, fn := range c.LibFuncs() {
+		if fn.Pkg == nil || fn.Pkg != c.SSA["gqlerrors"] {
+			continue
+		}
+		for _, ci := range core.CallsTo(fn, gl, false) {
 			if core.InAnyLoop(ci.Block()) {
-				ok = true
+				loopCall = ci
 			}
 		}
 	}
-	r.Check(ok, "gqlerrors.newError/locations-per-position", fd.Pos(), "one location computed per position",
-		"gqlerrors.newError no longer computes a location for each position")
+	pos := token.NoPos
+	if loopCall != nil {
+		pos = loopCall.Pos()
+	}
+	r.Check(loopCall != nil, "gqlerrors.newError/locations-per-position", pos, "one location computed per position",
+		"package gqlerrors no longer computes a location for each position of an error")
+	// node positions are Loc.Start, nowhere Loc.End, in the whole package
+	var decls []ast.Node
+	for _, f := range p.Syntax {
+		for _, d := range f.Decls {
+			if fd, ok := d.(*ast.FuncDecl); ok && fd.Body != nil {
+				decls = append(decls, fd)
+			}
+		}
+	}
+	reads := core.FieldsRead(p.TypesInfo, decls)["ast.Location"]
+	r.Check(reads["Start"] && !reads["End"], "gqlerrors.newError/position-from-Loc.Start", pos,
+		"error positions are the nodes' Loc.Start", "package gqlerrors does not take node positions from Loc.Start (or reads Loc.End): validation and field errors point at the wrong place")
 }
 
 func c18Path(c *core.Ctx, r *core.Reporter) {
